@@ -9,6 +9,193 @@ From CelloV Require Import Generated Config.
 Import ListNotations.
 Local Open Scope Z_scope.
 
+(* ------------------------------------------------------------------ Part A0: the method cache *)
+
+(* a filled slot holds what a scan for the class wired to it returns *)
+Definition cache_ok (t : tyobj) : Prop :=
+  forall c i x, slot_of c = Some i -> nth_error (tslots t) i = Some (Some x) -> scan (tinsts t) c = Some x.
+
+Definition types_ok (T : types) : Prop := Forall cache_ok T.
+Definition same_insts (T1 T2 : types) : Prop := map tinsts T1 = map tinsts T2.
+
+Lemma wiring_nodup : nodupb (map fst cfg_cache_wiring) = true.
+Proof. vm_compute. reflexivity. Qed.
+
+Lemma nodupb_spec : forall l, nodupb l = true -> NoDup l.
+Proof.
+  induction l as [| x t IH]; simpl; intros H; [constructor |].
+  apply andb_prop in H. destruct H as [H1 H2]. constructor; [| apply IH; exact H2].
+  intro Hin. apply negb_true_iff in H1.
+  assert (existsb (Nat.eqb x) t = true) as E.
+  { apply existsb_exists. exists x. split; [exact Hin | apply Nat.eqb_refl]. }
+  rewrite E in H1. discriminate.
+Qed.
+
+Lemma find_slot_in : forall (w : list (nat * string)) c i,
+  match find (fun x : nat * string => String.eqb (snd x) c) w with Some x => Some (fst x) | None => None end = Some i ->
+  In (i, c) w.
+Proof.
+  induction w as [| [j d] w IH]; simpl; intros c i H; [discriminate |].
+  destruct (String.eqb d c) eqn:E.
+  - apply String.eqb_eq in E. simpl in H. inversion H; subst. left; reflexivity.
+  - right. apply IH. exact H.
+Qed.
+
+Lemma nodup_fst_inj : forall (w : list (nat * string)), NoDup (map fst w) ->
+  forall i c1 c2, In (i, c1) w -> In (i, c2) w -> c1 = c2.
+Proof.
+  induction w as [| [j d] w IH]; simpl; intros Hn i c1 c2 H1 H2; [contradiction |].
+  inversion Hn as [| ? ? Hnotin Hn']; subst.
+  destruct H1 as [H1 | H1]; destruct H2 as [H2 | H2].
+  - inversion H1; inversion H2; subst. reflexivity.
+  - inversion H1; subst. exfalso. apply Hnotin. apply (in_map fst) in H2. exact H2.
+  - inversion H2; subst. exfalso. apply Hnotin. apply (in_map fst) in H1. exact H1.
+  - eapply IH; eassumption.
+Qed.
+
+(* no two classes share a cache slot *)
+Lemma slot_of_inj : forall c1 c2 i, slot_of c1 = Some i -> slot_of c2 = Some i -> c1 = c2.
+Proof.
+  unfold slot_of. intros c1 c2 i H1 H2.
+  apply find_slot_in in H1. apply find_slot_in in H2.
+  eapply nodup_fst_inj; [apply nodupb_spec, wiring_nodup | exact H1 | exact H2].
+Qed.
+
+Lemma nth_error_set_slot_eq : forall l i (v : option inst), (i < List.length l)%nat -> nth_error (set_slot l i v) i = Some v.
+Proof.
+  induction l as [| x t IH]; simpl; intros i v H; [lia |].
+  destruct i; simpl; [reflexivity | apply IH; lia].
+Qed.
+
+Lemma nth_error_set_slot_neq : forall l i j (v : option inst), i <> j -> nth_error (set_slot l i v) j = nth_error l j.
+Proof.
+  induction l as [| x t IH]; simpl; intros i j v H; [reflexivity |].
+  destruct i; destruct j; simpl; try reflexivity; try congruence.
+  apply IH. congruence.
+Qed.
+
+Lemma lookup_insts : forall b t c, tinsts (fst (lookup b t c)) = tinsts t.
+Proof.
+  intros b t c. unfold lookup. destruct b; [| reflexivity].
+  destruct (slot_of c); [| reflexivity].
+  destruct (nth_error (tslots t) n) as [[x |] |]; reflexivity.
+Qed.
+
+(* the cached lookup returns what the scan returns *)
+Lemma lookup_result : forall b t c, cache_ok t -> snd (lookup b t c) = scan (tinsts t) c.
+Proof.
+  intros b t c Hok. unfold lookup. destruct b; [| reflexivity].
+  destruct (slot_of c) as [i |] eqn:Hs; [| reflexivity].
+  destruct (nth_error (tslots t) i) as [[x |] |] eqn:Hn; simpl; try reflexivity.
+  symmetry. eapply Hok; eassumption.
+Qed.
+
+(* and keeps the cache sound *)
+Lemma lookup_ok : forall b t c, cache_ok t -> cache_ok (fst (lookup b t c)).
+Proof.
+  intros b t c Hok. unfold lookup. destruct b; [| exact Hok].
+  destruct (slot_of c) as [i |] eqn:Hs; [| exact Hok].
+  destruct (nth_error (tslots t) i) as [[x |] |] eqn:Hn; simpl; try exact Hok.
+  intros c' i' x' Hs' Hn'. simpl in *.
+  destruct (Nat.eq_dec i i') as [E | E].
+  - subst i'. assert (c' = c) by (eapply slot_of_inj; eassumption). subst c'.
+    rewrite nth_error_set_slot_eq in Hn'.
+    + inversion Hn'. reflexivity.
+    + apply nth_error_Some. rewrite Hn. discriminate.
+  - rewrite nth_error_set_slot_neq in Hn' by exact E. eapply Hok; eassumption.
+Qed.
+
+Lemma map_set_type : forall (T : types) n t t', nth_error T n = Some t -> tinsts t' = tinsts t ->
+  map tinsts (set_type T n t') = map tinsts T.
+Proof.
+  induction T as [| x r IH]; simpl; intros n t t' Hn He; [reflexivity |].
+  destruct n; simpl in *.
+  - inversion Hn; subst. rewrite He. reflexivity.
+  - f_equal. eapply IH; eassumption.
+Qed.
+
+Lemma forall_set_type : forall (T : types) n t', types_ok T -> cache_ok t' -> types_ok (set_type T n t').
+Proof.
+  unfold types_ok. induction T as [| x r IH]; simpl; intros n t' HT Ht; [constructor |].
+  inversion HT; subst. destruct n; constructor; auto.
+Qed.
+
+Lemma types_ok_nth : forall (T : types) n t, types_ok T -> nth_error T n = Some t -> cache_ok t.
+Proof.
+  unfold types_ok. intros T n t HT Hn. rewrite Forall_forall in HT. apply HT. eapply nth_error_In; eassumption.
+Qed.
+
+Lemma lookup_in_result : forall b T ty c, types_ok T -> snd (lookup_in b T ty c) = scan_in T ty c.
+Proof.
+  intros b T ty c HT. unfold lookup_in, scan_in.
+  destruct (nth_error T ty) as [t |] eqn:Hn; [| reflexivity].
+  pose proof (lookup_result b t c (types_ok_nth T ty t HT Hn)) as H.
+  destruct (lookup b t c) as [t' r]. exact H.
+Qed.
+
+Lemma lookup_in_insts : forall b T ty c, same_insts (fst (lookup_in b T ty c)) T.
+Proof.
+  intros b T ty c. unfold same_insts, lookup_in.
+  destruct (nth_error T ty) as [t |] eqn:Hn; [| reflexivity].
+  pose proof (lookup_insts b t c) as H.
+  destruct (lookup b t c) as [t' r]. simpl in *. eapply map_set_type; eassumption.
+Qed.
+
+Lemma lookup_in_ok : forall b T ty c, types_ok T -> types_ok (fst (lookup_in b T ty c)).
+Proof.
+  intros b T ty c HT. unfold lookup_in.
+  destruct (nth_error T ty) as [t |] eqn:Hn; [| exact HT].
+  pose proof (lookup_ok b t c (types_ok_nth T ty t HT Hn)) as H.
+  destruct (lookup b t c) as [t' r]. simpl in *. apply forall_set_type; assumption.
+Qed.
+
+Lemma nth_error_map_tinsts : forall (T1 T2 : types) n, same_insts T1 T2 ->
+  option_map tinsts (nth_error T1 n) = option_map tinsts (nth_error T2 n).
+Proof.
+  unfold same_insts. induction T1 as [| x r IH]; destruct T2 as [| y q]; simpl; intros n H; try discriminate.
+  - destruct n; reflexivity.
+  - inversion H. destruct n; simpl; [congruence | apply IH; assumption].
+Qed.
+
+Lemma scan_in_insts : forall T1 T2 ty c, same_insts T1 T2 -> scan_in T1 ty c = scan_in T2 ty c.
+Proof.
+  intros T1 T2 ty c H. unfold scan_in. pose proof (nth_error_map_tinsts T1 T2 ty H) as E.
+  destruct (nth_error T1 ty), (nth_error T2 ty); simpl in E; try discriminate; [| reflexivity].
+  inversion E as [E']. rewrite E'. reflexivity.
+Qed.
+
+Lemma same_insts_refl : forall T, same_insts T T.
+Proof. reflexivity. Qed.
+Lemma same_insts_sym : forall T1 T2, same_insts T1 T2 -> same_insts T2 T1.
+Proof. unfold same_insts; intros; congruence. Qed.
+Lemma same_insts_trans : forall T1 T2 T3, same_insts T1 T2 -> same_insts T2 T3 -> same_insts T1 T3.
+Proof. unfold same_insts; intros; congruence. Qed.
+
+(* sequences of lookups on one type: the cache is transparent (the statement about Type.c alone) *)
+Fixpoint lookups (b : bool) (t : tyobj) (cs : list string) : list (option inst) :=
+  match cs with
+  | [] => []
+  | c :: r => let '(t', x) := lookup b t c in x :: lookups b t' r
+  end.
+
+Lemma lookups_transparent : forall cs t1 t2, cache_ok t1 -> cache_ok t2 -> tinsts t1 = tinsts t2 ->
+  lookups true t1 cs = lookups false t2 cs.
+Proof.
+  induction cs as [| c r IH]; intros t1 t2 H1 H2 He; [reflexivity |].
+  cbn [lookups].
+  pose proof (lookup_result true t1 c H1) as R1. pose proof (lookup_ok true t1 c H1) as K1.
+  pose proof (lookup_insts true t1 c) as I1.
+  destruct (lookup true t1 c) as [t1' x1]. cbn [fst snd] in *.
+  change (lookup false t2 c) with (t2, scan (tinsts t2) c). cbn iota.
+  rewrite R1, He. f_equal. apply IH; [exact K1 | exact H2 | congruence].
+Qed.
+
+Lemma fresh_type_ok : forall insts, cache_ok (fresh_type insts).
+Proof.
+  intros insts c i x _ Hn. unfold fresh_type in Hn. cbn [tslots] in Hn.
+  apply nth_error_In in Hn. apply repeat_spec in Hn. discriminate.
+Qed.
+
 (* ------------------------------------------------------------------ Part A *)
 Section InterpProofs.
   Variables St Val : Type.
@@ -16,15 +203,60 @@ Section InterpProofs.
   Notation run := (run St Val).
   Notation fires := (fires St Val).
 
-  Lemma run_indep : forall (p : prog) s c1 c2,
-    fires p s = false -> run c1 p s = run c2 p s.
+  Lemma fires_insts : forall (p : prog) s T1 T2, same_insts T1 T2 -> fires p s T1 = fires p s T2.
   Proof.
-    induction p as [o | k IH | s' k IH | sw b e k IH]; intros s c1 c2 Hf; simpl in *.
+    induction p as [o | k IH | s' k IH | sw b e k IH | ty cl k IH]; intros s T1 T2 H; simpl.
     - reflexivity.
-    - apply IH; exact Hf.
-    - apply IH; exact Hf.
-    - destruct b; [discriminate Hf |].
-      rewrite !andb_false_r. apply IH; exact Hf.
+    - apply IH; exact H.
+    - apply IH; exact H.
+    - destruct b; [reflexivity | apply IH; exact H].
+    - rewrite (scan_in_insts T1 T2 ty cl H). apply IH; exact H.
+  Qed.
+
+  (* result triple of a run, componentwise *)
+  Definition rst (r : St * types * outcome Val) : St := fst (fst r).
+  Definition rty (r : St * types * outcome Val) : types := snd (fst r).
+  Definition rout (r : St * types * outcome Val) : outcome Val := snd r.
+
+  (* simulation: sound caches with the same instance lists, no guarded test succeeds ⇒ same state and
+     outcome under every two configuration records, caches stay sound, instance lists untouched *)
+  Lemma run_sim : forall (p : prog) s T1 T2 c1 c2,
+    types_ok T1 -> types_ok T2 -> same_insts T1 T2 -> fires p s T1 = false ->
+    rst (run c1 p s T1) = rst (run c2 p s T2) /\ rout (run c1 p s T1) = rout (run c2 p s T2) /\
+    types_ok (rty (run c1 p s T1)) /\ types_ok (rty (run c2 p s T2)) /\
+    same_insts (rty (run c1 p s T1)) (rty (run c2 p s T2)) /\ same_insts T1 (rty (run c1 p s T1)).
+  Proof.
+    induction p as [o | k IH | s' k IH | sw b e k IH | ty cl k IH]; intros s T1 T2 c1 c2 H1 H2 Hs Hf; simpl in *.
+    - repeat split; auto using same_insts_refl.
+    - apply IH; assumption.
+    - apply IH; assumption.
+    - destruct b; [discriminate Hf |]. rewrite !andb_false_r. apply IH; assumption.
+    - pose proof (lookup_in_result (cache c1) T1 ty cl H1) as R1.
+      pose proof (lookup_in_result (cache c2) T2 ty cl H2) as R2.
+      pose proof (lookup_in_ok (cache c1) T1 ty cl H1) as K1.
+      pose proof (lookup_in_ok (cache c2) T2 ty cl H2) as K2.
+      pose proof (lookup_in_insts (cache c1) T1 ty cl) as I1.
+      pose proof (lookup_in_insts (cache c2) T2 ty cl) as I2.
+      destruct (lookup_in (cache c1) T1 ty cl) as [T1' r1].
+      destruct (lookup_in (cache c2) T2 ty cl) as [T2' r2]. simpl in *.
+      assert (Er : scan_in T2 ty cl = scan_in T1 ty cl) by (symmetry; apply scan_in_insts; exact Hs).
+      rewrite Er in R2. subst r1 r2.
+      assert (Hs' : same_insts T1' T2').
+      { eapply same_insts_trans; [exact I1 |]. eapply same_insts_trans; [exact Hs |]. apply same_insts_sym; exact I2. }
+      assert (Hf' : fires (k (scan_in T1 ty cl)) s T1' = false).
+      { rewrite (fires_insts _ s T1' T1 I1). exact Hf. }
+      destruct (IH (scan_in T1 ty cl) s T1' T2' c1 c2 K1 K2 Hs' Hf') as (A & B & C & D & E & F).
+      repeat split; auto.
+      eapply same_insts_trans; [apply same_insts_sym; exact I1 | exact F].
+  Qed.
+
+  (* the theorem as the property states it: one table, two configurations *)
+  Lemma run_indep : forall (p : prog) s T c1 c2,
+    types_ok T -> fires p s T = false ->
+    rst (run c1 p s T) = rst (run c2 p s T) /\ rout (run c1 p s T) = rout (run c2 p s T).
+  Proof.
+    intros p s T c1 c2 HT Hf.
+    destruct (run_sim p s T T c1 c2 HT HT (same_insts_refl T) Hf) as (A & B & _). split; assumption.
   Qed.
 
   Definition all_on (c : config) : Prop := forall sw, checks c sw = true.
@@ -33,42 +265,48 @@ Section InterpProofs.
   Proof. intro sw; reflexivity. Qed.
 
   (* a guarded test that succeeds makes the all-checks build raise *)
-  Lemma fires_raises : forall (p : prog) s c,
-    all_on c -> fires p s = true -> is_raise Val (snd (run c p s)) = true.
+  Lemma fires_raises : forall (p : prog) s T c,
+    all_on c -> types_ok T -> fires p s T = true -> is_raise Val (rout (run c p s T)) = true.
   Proof.
-    induction p as [o | k IH | s' k IH | sw b e k IH]; intros s c Hc Hf; simpl in *.
+    induction p as [o | k IH | s' k IH | sw b e k IH | ty cl k IH]; intros s T c Hc HT Hf; simpl in *.
     - discriminate.
     - apply IH; assumption.
     - apply IH; assumption.
-    - rewrite Hc. destruct b; simpl.
-      + reflexivity.
-      + apply IH; assumption.
+    - rewrite Hc. destruct b; simpl; [reflexivity | apply IH; assumption].
+    - pose proof (lookup_in_result (cache c) T ty cl HT) as R.
+      pose proof (lookup_in_ok (cache c) T ty cl HT) as K.
+      pose proof (lookup_in_insts (cache c) T ty cl) as I.
+      destruct (lookup_in (cache c) T ty cl) as [T' r]. simpl in *. subst r.
+      apply IH; [exact Hc | exact K |]. rewrite (fires_insts _ s T' T I). exact Hf.
   Qed.
 
-  Lemma no_raise_no_fire : forall (p : prog) s c,
-    all_on c -> is_raise Val (snd (run c p s)) = false -> fires p s = false.
+  Lemma no_raise_no_fire : forall (p : prog) s T c,
+    all_on c -> types_ok T -> is_raise Val (rout (run c p s T)) = false -> fires p s T = false.
   Proof.
-    intros p s c Hc Hr. destruct (fires p s) eqn:Hf; [| reflexivity].
-    rewrite (fires_raises p s c Hc Hf) in Hr. discriminate.
+    intros p s T c Hc HT Hr. destruct (fires p s T) eqn:Hf; [| reflexivity].
+    rewrite (fires_raises p s T c Hc HT Hf) in Hr. discriminate.
   Qed.
 
   (* the property's wording for one call: no error path under the default build ⇒ every build agrees *)
-  Lemma run_indep_no_raise : forall (p : prog) s c,
-    is_raise Val (snd (run cfg_default p s)) = false -> run c p s = run cfg_default p s.
+  Lemma run_indep_no_raise : forall (p : prog) s T c,
+    types_ok T -> is_raise Val (rout (run cfg_default p s T)) = false ->
+    rst (run c p s T) = rst (run cfg_default p s T) /\ rout (run c p s T) = rout (run cfg_default p s T).
   Proof.
-    intros p s c Hr. apply run_indep. eapply no_raise_no_fire; [apply default_all_on | exact Hr].
+    intros p s T c HT Hr. apply run_indep; [exact HT |].
+    eapply no_raise_no_fire; [apply default_all_on | exact HT | exact Hr].
   Qed.
 
-  (* a run only ever consults `checks`: the cache and collector fields are not read by the interpreter
-     (their transparency is the subject of C08 and C01, not of this model) *)
-  Lemma run_checks_only : forall (p : prog) s c1 c2,
-    (forall sw, checks c1 sw = checks c2 sw) -> run c1 p s = run c2 p s.
+  (* a run consults `checks` and `cache` only: the collector field is not read by the interpreter
+     (collector transparency is the subject of C01, not of this model) *)
+  Lemma run_reads_checks_cache : forall (p : prog) s T c1 c2,
+    (forall sw, checks c1 sw = checks c2 sw) -> cache c1 = cache c2 -> run c1 p s T = run c2 p s T.
   Proof.
-    induction p as [o | k IH | s' k IH | sw b e k IH]; intros s c1 c2 Hc; simpl.
+    induction p as [o | k IH | s' k IH | sw b e k IH | ty cl k IH]; intros s T c1 c2 Hc Hk; simpl.
     - reflexivity.
-    - apply IH; exact Hc.
-    - apply IH; exact Hc.
-    - rewrite Hc. destruct (checks c2 sw && b); [reflexivity | apply IH; exact Hc].
+    - apply IH; assumption.
+    - apply IH; assumption.
+    - rewrite Hc. destruct (checks c2 sw && b); [reflexivity | apply IH; assumption].
+    - rewrite Hk. destruct (lookup_in (cache c2) T ty cl) as [T' r]. apply IH; assumption.
   Qed.
 
   Section HistoryProofs.
@@ -78,42 +316,74 @@ Section InterpProofs.
     Notation history_fires := (history_fires St Val Op body).
     Notation no_error_path := (no_error_path St Val Op body).
 
-    Lemma history_indep : forall h s c1 c2,
-      history_fires h s = false -> run_history c1 h s = run_history c2 h s.
+    Definition hst (r : St * types * list (outcome Val)) : St := fst (fst r).
+    Definition hty (r : St * types * list (outcome Val)) : types := snd (fst r).
+    Definition hout (r : St * types * list (outcome Val)) : list (outcome Val) := snd r.
+
+    Lemma history_sim : forall h s T0 T1 T2 c1 c2,
+      types_ok T0 -> types_ok T1 -> types_ok T2 -> same_insts T0 T1 -> same_insts T0 T2 ->
+      history_fires h s T0 = false ->
+      hst (run_history c1 h s T1) = hst (run_history c2 h s T2) /\
+      hout (run_history c1 h s T1) = hout (run_history c2 h s T2) /\
+      types_ok (hty (run_history c1 h s T1)) /\ types_ok (hty (run_history c2 h s T2)) /\
+      same_insts (hty (run_history c1 h s T1)) (hty (run_history c2 h s T2)).
     Proof.
-      induction h as [| o h IH]; intros s c1 c2 Hf; simpl in *.
-      - reflexivity.
-      - destruct (fires (body o) s) eqn:Ho; [discriminate Hf |].
-        rewrite (run_indep (body o) s c1 cfg_default Ho).
-        rewrite (run_indep (body o) s c2 cfg_default Ho).
-        destruct (run cfg_default (body o) s) as [s' r].
-        destruct (is_crash Val r); [reflexivity |].
-        rewrite (IH s' c1 c2 Hf). reflexivity.
+      induction h as [| o h IH]; intros s T0 T1 T2 c1 c2 H0 H1 H2 S1 S2 Hf; simpl in *.
+      - repeat split; auto. eapply same_insts_trans; [apply same_insts_sym; exact S1 | exact S2].
+      - destruct (fires (body o) s T0) eqn:Ho; [discriminate Hf |].
+        destruct (run_sim (body o) s T0 T1 cfg_default c1 H0 H1 S1 Ho) as (A1 & B1 & C1 & D1 & E1 & F1).
+        destruct (run_sim (body o) s T0 T2 cfg_default c2 H0 H2 S2 Ho) as (A2 & B2 & C2 & D2 & E2 & F2).
+        destruct (run cfg_default (body o) s T0) as [[s0 T0'] r0].
+        destruct (run c1 (body o) s T1) as [[s1 T1'] r1].
+        destruct (run c2 (body o) s T2) as [[s2 T2'] r2].
+        unfold rst, rty, rout in *. simpl in *. subst s1 s2 r1 r2.
+        destruct (is_crash Val r0).
+        + unfold hst, hty, hout; simpl. repeat split; auto.
+          eapply same_insts_trans; [apply same_insts_sym; exact E1 | exact E2].
+        + specialize (IH s0 T0' T1' T2' c1 c2 C1 D1 D2 E1 E2 Hf).
+          destruct (run_history c1 h s0 T1') as [[s1' T1''] rs1].
+          destruct (run_history c2 h s0 T2') as [[s2' T2''] rs2].
+          unfold hst, hty, hout in *. simpl in *.
+          destruct IH as (A & B & C & D & E). subst. repeat split; auto.
     Qed.
 
-    Lemma no_error_path_no_fire : forall h s,
-      no_error_path h s = true -> history_fires h s = false.
+    Lemma history_indep : forall h s T c1 c2,
+      types_ok T -> history_fires h s T = false ->
+      hst (run_history c1 h s T) = hst (run_history c2 h s T) /\
+      hout (run_history c1 h s T) = hout (run_history c2 h s T).
+    Proof.
+      intros h s T c1 c2 HT Hf.
+      destruct (history_sim h s T T T c1 c2 HT HT HT (same_insts_refl T) (same_insts_refl T) Hf) as (A & B & _).
+      split; assumption.
+    Qed.
+
+    Lemma no_error_path_no_fire : forall h s T,
+      types_ok T -> no_error_path h s T = true -> history_fires h s T = false.
     Proof.
       unfold Config.no_error_path.
-      induction h as [| o h IH]; intros s Hn; simpl in *.
+      induction h as [| o h IH]; intros s T HT Hn; simpl in *.
       - reflexivity.
-      - destruct (fires (body o) s) eqn:Ho.
-        + pose proof (fires_raises (body o) s cfg_default default_all_on Ho) as Hr.
-          destruct (run cfg_default (body o) s) as [s' r]. simpl in Hr.
+      - destruct (fires (body o) s T) eqn:Ho.
+        + pose proof (fires_raises (body o) s T cfg_default default_all_on HT Ho) as Hr.
+          destruct (run cfg_default (body o) s T) as [[s' T'] r]. unfold rout in Hr. simpl in Hr.
           destruct (is_crash Val r).
           * simpl in Hn. rewrite Hr in Hn. discriminate.
-          * destruct (run_history cfg_default h s') as [s'' rs]. simpl in Hn.
+          * destruct (run_history cfg_default h s' T') as [[s'' T''] rs]. simpl in Hn.
             rewrite Hr in Hn. discriminate.
-        + destruct (run cfg_default (body o) s) as [s' r].
+        + assert (HT' : types_ok (rty (run cfg_default (body o) s T))).
+          { destruct (run_sim (body o) s T T cfg_default cfg_default HT HT (same_insts_refl T) Ho) as (_ & _ & C & _). exact C. }
+          destruct (run cfg_default (body o) s T) as [[s' T'] r]. unfold rty in HT'. simpl in HT'.
           destruct (is_crash Val r) eqn:Hc; [reflexivity |].
-          apply IH.
-          destruct (run_history cfg_default h s') as [s'' rs]. simpl in Hn |- *.
+          apply IH; [exact HT' |].
+          destruct (run_history cfg_default h s' T') as [[s'' T''] rs]. simpl in Hn |- *.
           apply andb_prop in Hn. tauto.
     Qed.
 
-    Theorem history_config_independent : forall h s c1 c2,
-      no_error_path h s = true -> run_history c1 h s = run_history c2 h s.
-    Proof. intros. apply history_indep, no_error_path_no_fire; assumption. Qed.
+    Theorem history_config_independent : forall h s T c1 c2,
+      types_ok T -> no_error_path h s T = true ->
+      hst (run_history c1 h s T) = hst (run_history c2 h s T) /\
+      hout (run_history c1 h s T) = hout (run_history c2 h s T).
+    Proof. intros. apply history_indep; [assumption | apply no_error_path_no_fire; assumption]. Qed.
   End HistoryProofs.
 End InterpProofs.
 
@@ -145,9 +415,9 @@ Ltac zb :=
   end.
 
 (* the contract, arithmetically: a guarded test of the body succeeds exactly outside it *)
-Lemma afires_char : forall o s, fires aseq Z (abody o) s = false <-> in_contract o s.
+Lemma afires_char : forall o s T, fires aseq Z (abody o) s T = false <-> in_contract o s.
 Proof.
-  intros o s. pose proof (Zle_0_nat (List.length s)) as Hn. fold (zlen s) in Hn.
+  intros o s T. pose proof (Zle_0_nat (List.length s)) as Hn. fold (zlen s) in Hn.
   destruct o; simpl;
     unfold cfg_Array_Get_guard, cfg_Array_Get_norm, cfg_Array_Set_guard, cfg_Array_Set_norm,
            cfg_Array_Push_At_guard, cfg_Array_Push_At_norm, cfg_Array_Pop_guard,
@@ -211,10 +481,10 @@ Ltac zb_all :=
   | |- context [?a =? ?b] => destruct (Z.eqb_spec a b)
   end; simpl in *; try discriminate; try lia).
 
-Lemma array_meets_spec : forall o s s' r c,
-  aspec o s = Some (s', r) -> run aseq Z c (abody o) s = (s', r).
+Lemma array_meets_spec : forall o s s' r c T,
+  aspec o s = Some (s', r) -> run aseq Z c (abody o) s T = (s', T, r).
 Proof.
-  intros o s s' r c H. pose proof (Zle_0_nat (List.length s)) as Hn. fold (zlen s) in Hn.
+  intros o s s' r c T H. pose proof (Zle_0_nat (List.length s)) as Hn. fold (zlen s) in Hn.
   destruct o; simpl in *;
     unfold wrap, cfg_Array_Get_guard, cfg_Array_Get_norm, cfg_Array_Set_guard, cfg_Array_Set_norm,
            cfg_Array_Push_At_guard, cfg_Array_Push_At_norm, cfg_Array_Pop_guard,
@@ -242,41 +512,88 @@ Definition all_some {A} (l : list (option A)) : bool := forallb (fun x => match 
 Definition strip {A} (d : A) (l : list (option A)) : list A := map (fun x => match x with Some a => a | None => d end) l.
 
 (* histories: a history the specification accepts throughout is computed identically by every build *)
-Lemma array_history_meets_spec : forall h s c,
+Lemma array_history_meets_spec_gen : forall h s c T,
   all_some (snd (aspec_history h s)) = true ->
-  arun c h s = (fst (aspec_history h s), strip OCrash (snd (aspec_history h s))).
+  run_history aseq Z aop abody c h s T = (fst (aspec_history h s), T, strip OCrash (snd (aspec_history h s))).
 Proof.
-  unfold arun. induction h as [| o h IH]; intros s c Ha; simpl in *.
+  induction h as [| o h IH]; intros s c T Ha; simpl in *.
   - reflexivity.
   - destruct (aspec o s) as [[s' r] |] eqn:E; [| discriminate Ha].
-    rewrite (array_meets_spec o s s' r c E). rewrite (aspec_no_crash o s s' r E).
-    specialize (IH s' c).
+    rewrite (array_meets_spec o s s' r c T E). rewrite (aspec_no_crash o s s' r E).
+    specialize (IH s' c T).
     destruct (aspec_history h s') as [s'' rs]. simpl in *.
     rewrite IH by exact Ha. reflexivity.
 Qed.
 
-(* and such a history is one on which no guarded test succeeds *)
-Lemma array_spec_history_in_contract : forall h s,
-  all_some (snd (aspec_history h s)) = true -> afires h s = false.
+Lemma array_history_meets_spec : forall h s c,
+  all_some (snd (aspec_history h s)) = true ->
+  arun c h s = (fst (aspec_history h s), strip OCrash (snd (aspec_history h s))).
 Proof.
-  unfold afires. induction h as [| o h IH]; intros s Ha; simpl in *.
+  intros h s c Ha. unfold arun. rewrite (array_history_meets_spec_gen h s c [] Ha). reflexivity.
+Qed.
+
+(* and such a history is one on which no guarded test succeeds *)
+Lemma array_spec_history_in_contract_gen : forall h s T,
+  all_some (snd (aspec_history h s)) = true -> history_fires aseq Z aop abody h s T = false.
+Proof.
+  induction h as [| o h IH]; intros s T Ha; simpl in *.
   - reflexivity.
   - destruct (aspec o s) as [[s' r] |] eqn:E; [| discriminate Ha].
     assert (Hc : in_contract o s) by (apply aspec_defined; eauto).
-    apply afires_char in Hc. rewrite Hc.
-    rewrite (array_meets_spec o s s' r cfg_default E). rewrite (aspec_no_crash o s s' r E).
+    apply (afires_char o s T) in Hc. rewrite Hc.
+    rewrite (array_meets_spec o s s' r cfg_default T E). rewrite (aspec_no_crash o s s' r E).
     apply IH. destruct (aspec_history h s') as [s'' rs]. exact Ha.
 Qed.
 
+Lemma array_spec_history_in_contract : forall h s,
+  all_some (snd (aspec_history h s)) = true -> afires h s = false.
+Proof. intros. unfold afires. apply array_spec_history_in_contract_gen. assumption. Qed.
+
+Lemma types_ok_nil : types_ok [].
+Proof. constructor. Qed.
+
 Theorem array_config_independent : forall h s c1 c2,
   afires h s = false -> arun c1 h s = arun c2 h s.
-Proof. intros. unfold arun. apply history_indep. exact H. Qed.
+Proof.
+  intros h s c1 c2 H. unfold arun, afires in *.
+  destruct (history_indep aseq Z aop abody h s [] c1 c2 types_ok_nil H) as [A B].
+  unfold hst, hout in *.
+  destruct (run_history aseq Z aop abody c1 h s []) as [[s1 T1] r1].
+  destruct (run_history aseq Z aop abody c2 h s []) as [[s2 T2] r2]. simpl in *. subst. reflexivity.
+Qed.
 
 (* outside the contract the builds do differ: the hypothesis cannot be dropped *)
 Lemma array_out_of_contract_differs :
-  exists o s, snd (run aseq Z cfg_default (abody o) s) = ORaise XIndexOutOfBounds /\
-              snd (run aseq Z (cfg_build true false false) (abody o) s) = OCrash.
+  exists o s, snd (run aseq Z cfg_default (abody o) s []) = ORaise XIndexOutOfBounds /\
+              snd (run aseq Z (cfg_build true false false) (abody o) s []) = OCrash.
 Proof. exists (AGet 0), []. split; reflexivity. Qed.
+
+(* the dispatching API: with sound caches, calls on which the METHOD check does not fire give the same
+   instances under every configuration; and it does matter: an unsound cache changes the answer *)
+Definition two_types : types :=
+  [fresh_type [("Len"%string, 7%nat); ("Hash"%string, 9%nat)]; fresh_type [("Len"%string, 3%nat)]].
+
+Lemma two_types_ok : types_ok two_types.
+Proof. repeat constructor; apply fresh_type_ok. Qed.
+
+Lemma dispatch_example :
+  history_fires unit nat dop dbody [DCall 0 "Len"; DCall 0 "Hash"; DCall 1 "Len"; DCall 0 "Len"]%string tt two_types = false /\
+  hout unit nat (run_history unit nat dop dbody (cfg_build true true true)
+                   [DCall 0 "Len"; DCall 0 "Hash"; DCall 1 "Len"; DCall 0 "Len"]%string tt two_types)
+    = [OVal 7; OVal 9; OVal 3; OVal 7]%nat.
+Proof. split; vm_compute; reflexivity. Qed.
+
+(* a slot filled with the wrong instance (what a wiring that shares a slot between two classes
+   produces) is visible: the soundness hypothesis cannot be dropped either *)
+Lemma unsound_cache_differs :
+  exists T, same_insts T two_types /\
+    rout unit nat (run unit nat cfg_default (dbody (DCall 0 "Hash"%string)) tt T) <>
+    rout unit nat (run unit nat (cfg_build false true false) (dbody (DCall 0 "Hash"%string)) tt T).
+Proof.
+  exists [mkTy (set_slot (repeat None cello_cache_num) 6 (Some 7%nat)) [("Len"%string, 7%nat); ("Hash"%string, 9%nat)];
+          fresh_type [("Len"%string, 3%nat)]].
+  split; [reflexivity |]. vm_compute. discriminate.
+Qed.
 
 (* ------------------------------------------------------------------ Part C: audit *)
 
@@ -297,6 +614,12 @@ Lemma ngc_cache_sites_audited :
   list_eqb pair_eqb cfg_ngc_blocks audited_ngc_blocks = true /\
   list_eqb pair_eqb cfg_cache_uses audited_cache_uses = true.
 Proof. split; vm_compute; reflexivity. Qed.
+
+Lemma cache_wiring_audited :
+  nodupb (map fst cfg_cache_wiring) = true /\
+  forallb (fun w : nat * string => Nat.ltb (fst w) cello_cache_num) cfg_cache_wiring = true /\
+  List.length cfg_cache_wiring = cello_cache_num.
+Proof. repeat split; vm_compute; reflexivity. Qed.
 
 Definition b2n (b : bool) : nat := if b then 1%nat else 0%nat.
 
